@@ -43,7 +43,7 @@ def history_case(ctx, cid, plan=None, with_long=False, lim=U24_MAX, stale=False)
         if with_long and rng.random() < 0.6:
             # long data may be followed by anything before the statement is executed: chunks for other
             # parameters / statements, a re-prepare (which must discard what is pending), a close + prepare
-            for _ in range(rng.randint(1, 4)):
+            for _ in range(rng.randint(1, 7)):
                 kk = k if rng.random() < 0.8 else rng.randrange(nst)
                 if kk not in prepared:
                     continue
@@ -139,7 +139,7 @@ def gen(ctx, with_long):
             for plan in itertools.product([(0, True), (0, False), (1, True), (1, False)], repeat=nexec):
                 i += 1
                 cases.append(history_case(ctx, "h_%d" % i, plan=list(plan)))
-    for _ in range(60 if ctx.quick() else 1200):
+    for _ in range(100 if ctx.quick() else 1500):
         i += 1
         cases.append(history_case(ctx, "h_%d" % i, with_long=with_long, lim=ctx.rng.choice([U24_MAX, U24_MAX, 6, 64])))
     if not with_long:
@@ -151,5 +151,10 @@ def gen(ctx, with_long):
 
 def run(ctx):
     ctx.corr["exhaustive"] = True
-    ctx.diff_conn(gen(ctx, False), oracle=oracle, nontrivial=lambda c, o: c.meta["reuse"],
+    # a batch with long data in between: what an execution that received long data leaves behind must not
+    # disturb the types a later execution reuses
+    extra = gen(ctx, True)[:(25 if ctx.quick() else 400)]
+    for c in extra:
+        c.id = "l" + c.id
+    ctx.diff_conn(gen(ctx, False) + extra, oracle=oracle, nontrivial=lambda c, o: c.meta["reuse"],
                   classify=lambda c, o: ["reuse" if c.meta["reuse"] else "rebind_only", "lim_%s" % (c.lim if c.lim < 1000 else "real")])
